@@ -213,6 +213,7 @@ func (fv *FuncVC) havocKeys(st *State, keys []string, all bool) {
 		fv.ctx.nfresh++
 		st.heap = map[string]string{}
 		st.epoch = 1000000 + fv.ctx.nfresh
+		st.touch()
 	} else {
 		for _, k := range keys {
 			fv.m.heapHavoc(st, HeapKey{Key: k, Sort: heapKeySorts[k]})
@@ -518,18 +519,25 @@ func (fv *FuncVC) pureAppNamed(st *State, base string, reads []string, pkg *type
 			sorts = append(sorts, cs[i].Sort)
 		}
 	}
+	nargs := len(as)
+	var keys []HeapKey
 	for _, r := range reads {
 		for _, hk := range fv.readKeys(r, pkg) {
 			as = append(as, fv.m.heapGet(st, hk))
 			sorts = append(sorts, hk.Sort)
+			keys = append(keys, hk)
 		}
 	}
+	basAs, guard := fv.allocBaseArgs(st, keys, args, as, nargs)
 	cs := fv.m.Flatten(rt)
 	res := Val{T: rt, C: make([]string, len(cs))}
 	for i, c := range cs {
 		name := fmt.Sprintf("%s%s", base, sanitize(c.Path))
 		fv.ctx.Decl(name, sorts, c.Sort)
 		res.C[i] = App(name, as...)
+		if basAs != nil {
+			res.C[i] = Ite(guard, App(name, basAs...), res.C[i])
+		}
 		// name large applications so that later formulas stay small (not possible under a binder)
 		if (fv.binderDepth == 0 || !boundVarRe.MatchString(res.C[i])) && len(res.C[i]) > 120 {
 			if n, ok := fv.appNames[res.C[i]]; ok {
@@ -651,7 +659,7 @@ func (fv *FuncVC) applyAssigns(env *SpecEnv, st *State, items []AssignsItem, cal
 		case it.All:
 			fv.havocKeys(st, nil, true)
 		case it.TypeT != "":
-			for _, hk := range fv.readKeys(it.TypeT+"::"+it.Field, env.pkg) {
+			for _, hk := range fv.readKeys(it.keySpec(), env.pkg) {
 				fv.m.heapHavoc(st, hk)
 			}
 		default:
@@ -1020,7 +1028,7 @@ func (fv *FuncVC) appendOp(fr *Frame, st *State, reach string, x *ssa.Call, args
 		for _, hk := range fv.m.ElemKeys(slT.Elem()) {
 			h := fv.m.heapGet(st, hk)
 			nv := fv.ctx.Fresh("appended", elemSortOf(hk.Sort))
-			fv.m.heapSet(st, hk, Store(h, r, nv))
+			fv.m.heapSetAt(st, hk, r, Store(h, r, nv))
 		}
 		return Val{T: x.Type(), C: []string{r, "0", fmt.Sprintf("(+ %s %s)", s.C[2], eLen)}}
 	}
@@ -1036,7 +1044,7 @@ func (fv *FuncVC) appendOp(fr *Frame, st *State, reach string, x *ssa.Call, args
 		fv.ctx.Assume(fmt.Sprintf("(forall ((i Int)) (! (=> (and (<= 0 i) (< i %s)) (= (select %s i) (select (select %s %s) (sidx %s i)))) :pattern ((select %s i))))", s.C[2], na, h, s.C[0], s.C[1], na))
 		// single-element appends are the common case (varargs array of constant length): unroll when constant
 		fv.ctx.Assume(fmt.Sprintf("(forall ((i Int)) (! (=> (and (<= %s i) (< i %s)) (= (select %s i) (select (select %s %s) (sidx %s (- i %s))))) :pattern ((select %s i))))", s.C[2], newLen, na, h, e.C[0], e.C[1], s.C[2], na))
-		fv.m.heapSet(st, hk, Store(h, r, na))
+		fv.m.heapSetAt(st, hk, r, Store(h, r, na))
 	}
 	return Val{T: x.Type(), C: []string{r, "0", newLen}}
 }
@@ -1086,7 +1094,7 @@ func (fv *FuncVC) expandAssigns(items []AssignsItem, pkg *types.Package) []Assig
 
 // qualifyTypeText makes a type name usable from any package: "run" (in package runs) -> "runs.run"
 func (fv *FuncVC) qualifyTypeText(text string, from *types.Package) string {
-	if strings.Contains(text, ".") {
+	if strings.Contains(text, ".") || strings.HasPrefix(text, "elems[") || strings.HasPrefix(text, "map[") {
 		return text
 	}
 	return from.Name() + "." + text
@@ -1102,4 +1110,9 @@ func (fv *FuncVC) forgets(callee, label string) bool {
 		}
 	}
 	return false
+}
+
+func qualifiedKeySpec(fv *FuncVC, it AssignsItem, from *types.Package) string {
+	it.TypeT = fv.qualifyTypeText(it.TypeT, from)
+	return it.keySpec()
 }
